@@ -27,12 +27,17 @@ type rpCase struct {
 	Registered []string            `json:"registered"`
 	Unused     bool                `json:"unused"`
 	Place      string              `json:"place,omitempty"` // RefPositions!Places ("" = flat)
+	Pipe       string              `json:"pipe,omitempty"`  // RefPositions!Pipes ("" = " | ")
 	Used       []string            `json:"used"`
 	Missing    []string            `json:"missing"`
 	Warm       []string            `json:"warm,omitempty"` // call prefix (SchemaApi_orders) after which the assertions are repeated
 }
 
-func rpRootText(ms []rpMention, place string) string {
+func rpRootText(ms []rpMention, place string, pipes ...string) string {
+	pipe := " | "
+	if len(pipes) > 0 && pipes[0] != "" {
+		pipe = pipes[0]
+	}
 	var rules, lines []string
 	for i, m := range ms {
 		n0 := "@" + m.Ns[0]
@@ -40,7 +45,7 @@ func rpRootText(ms []rpMention, place string) string {
 		case "value":
 			lines = append(lines, fmt.Sprintf(`  "p%d": %s`, i, n0))
 		case "choice":
-			lines = append(lines, fmt.Sprintf(`  "p%d": %s | @%s`, i, n0, m.Ns[1]))
+			lines = append(lines, fmt.Sprintf(`  "p%d": %s%s@%s`, i, n0, pipe, m.Ns[1]))
 		case "key":
 			lines = append(lines, fmt.Sprintf(`  %s: %d`, n0, i))
 		case "type":
@@ -149,7 +154,7 @@ func rpTypeText(name string, v []string) string {
 
 func rpDump(cs rpCase) string {
 	var sb strings.Builder
-	fmt.Fprintf(&sb, "ROOT %s\n", strings.ReplaceAll(rpRootText(cs.Root, cs.Place), "\n", " "))
+	fmt.Fprintf(&sb, "ROOT %s\n", strings.ReplaceAll(rpRootText(cs.Root, cs.Place, cs.Pipe), "\n", " "))
 	for _, n := range []string{"a", "b", "c", "d"} {
 		reg := "withheld"
 		for _, r := range cs.Registered {
@@ -166,7 +171,7 @@ func rpDump(cs rpCase) string {
 }
 
 func rpBuild(cs rpCase, withUnused bool) (*jschema.JSchema, error) {
-	s := jschema.New("root", rpRootText(cs.Root, cs.Place))
+	s := jschema.New("root", rpRootText(cs.Root, cs.Place, cs.Pipe))
 	for _, n := range cs.Registered {
 		if err := s.AddType("@"+n, jschema.New("@"+n, rpTypeText(n, cs.Variant[n]))); err != nil {
 			return nil, fmt.Errorf("AddType(@%s): %v", n, err)
